@@ -99,6 +99,22 @@ def check_hopts_term(ctx, key, t, inst, pidx):
         ".buckets(BUCKETS)" if "BUCKETS" in args else "", ".const_labels(LABELS)" if "HCL" in args else "", show(t)))
 
 
+def _pure_size(b, t):
+    """A usize computed without touching any macro argument: a literal, or the length of a literal array (`<[()]>::len(&[(), ()])`)."""
+    t = peel(t, transparent=[])
+    if isinstance(t, tuple) and t and t[0] in ("const", "constdef"):
+        return True
+    if is_call(t, "slice::len") and t[2]:
+        a = peel(t[2][0])
+        if isinstance(a, tuple) and a and a[0] in ("const", "constdef"):
+            return True
+        if isinstance(a, tuple) and a and a[0] == "agg" and a[1] in ("array", "tuple"):
+            return not [x for x in subterms(a) if isinstance(x, tuple) and x and x[0] in ("param", "call", "var")]
+        if isinstance(a, tuple) and a and a[0] == "cast":
+            return _pure_size(b, ("call", t[1], (a[2],), t[3]))
+    return False
+
+
 def expected_calls(inst):
     args = inst["args"]
     kind = inst["kind"]
@@ -134,6 +150,11 @@ def check_instance(ctx, f, inst):
     names = []
     for c in calls:
         s = callee_short(c)
+        if c.matches("HashMap::with_capacity") and len(c.args) == 1 and _pure_size(b, c.args[0]):
+            names.append("HashMap::new")         # an empty map either way; the capacity is a pure size computed from literals (no macro argument is evaluated for it)
+            continue
+        if c.matches(["slice::len"]) and _pure_size(b, c.result_term()):
+            continue
         if c.matches("Box::new"):
             names.append("Box::new")
         elif metric and ((kind in ("scalar", "hist") and c.matches("with_opts")) or (kind in ("vec", "histvec") and strip_generics(c.callee).endswith("::new") and "MetricVec" in c.callee_args + strip_generics(c.callee))):
@@ -161,7 +182,7 @@ def check_instance(ctx, f, inst):
     if kind == "labels":
         ins = b.calls_to("HashMap::insert")
         m = peel(r)
-        ok = is_call(m, "HashMap::new") and all(peel(c.args[0]) == m for c in ins)
+        ok = (is_call(m, "HashMap::new") or (is_call(m, "HashMap::with_capacity") and _pure_size(b, m[2][0]))) and all(peel(c.args[0]) == m for c in ins)
         pairs = [(peel(c.args[1]), peel(c.args[2])) for c in ins]
         exp = []
         for a in inst["args"]:
@@ -300,6 +321,10 @@ def rule_default_registry(ctx, fr):
         if ok:
             recv = peel(cs[0].args[0])
             ok = any(isinstance(s, tuple) and s and s[0] in ("constdef", "const", "static", "other") and "DEFAULT_REGISTRY" in str(s) for s in subterms(cs[0].args[0])) or "DEFAULT_REGISTRY" in str(recv)
+            if not ok and is_call(recv, "default_registry") and not recv[2]:
+                # through the public accessor, which itself hands out the one static
+                db = fr.body("prometheus::registry::default_registry")
+                ok = db is not None and "DEFAULT_REGISTRY" in str(db.term_local(0))      # (`default_registry|same-static` below checks that accessor)
             if nargs:
                 ok = ok and peel(cs[0].args[1]) == P(1)
             ok = ok and peel(b.term_local(0), transparent=[]) == cs[0].result_term()
